@@ -131,6 +131,15 @@ type Kernel struct {
 
 	aborting bool
 
+	// AfterDrain, if set, is called on the scheduler goroutine after the
+	// notes of a step have been processed (end-of-step invariants).
+	AfterDrain func()
+
+	// Exclusive, if set, restricts scheduling to that task while it is
+	// parked (used to keep the simulator from constructing a select with two
+	// ready cases).
+	Exclusive *Task
+
 	// Violation is the first violation reported in this run.
 	Violation *Violation
 
@@ -438,6 +447,12 @@ func (k *Kernel) drain() {
 }
 
 func (k *Kernel) enabled() (en []*Task) {
+	if x := k.Exclusive; x != nil && x.state == stParked {
+		n := x.note
+		if (n.o.Mu == nil || !mutexLocked(n.o.Mu)) && (n.o.Pred == nil || n.o.Pred()) {
+			return []*Task{x}
+		}
+	}
 	for _, t := range k.tasks {
 		if t.state != stParked {
 			continue
@@ -523,6 +538,9 @@ func (k *Kernel) Run() {
 	for {
 		synctest.Wait()
 		k.drain()
+		if k.AfterDrain != nil && k.Violation == nil && k.HarnessErr == "" {
+			k.AfterDrain()
+		}
 		if k.HarnessErr != "" {
 			return
 		}
@@ -603,6 +621,13 @@ func (k *Kernel) Blocked() (ts []*Task) {
 
 	return ts
 }
+
+// IsBlocked reports whether the task is neither parked nor exited, i.e. (at
+// quiescence) blocked inside the code under test.
+func (t *Task) IsBlocked() bool { return t.state == stRunning }
+
+// IsParked reports whether the task is parked at a yield point.
+func (t *Task) IsParked() bool { return t.state == stParked }
 
 // Tasks returns all tasks.
 func (k *Kernel) Tasks() []*Task { return k.tasks }
